@@ -77,7 +77,7 @@ package coalesce
 //@ func (*Queue).Insert
 //@   props C11 C08 C04 C12
 //@   requires QStable(q)
-//@   modifies ghost insertSteps
+//@   modifies ghost insertSteps, sends(q.inserted)
 //@   ensures [refused-after-close] old(closed(q.closed)) ==> !res0 && res1 == errClosedQueue && insertSteps == old(insertSteps)
 //@   ensures [accepted] !old(closed(q.closed)) ==> res1 == nil && insertSteps == old(insertSteps) + 1
 // A waiting consumer is woken for a NEW item (a non-blocking signal is attempted), never for a coalesced duplicate.
